@@ -43,7 +43,7 @@ type (
 	NilV struct{}
 )
 
-func Num(n int64) Poly     { return PolyConst(new(big.Rat).SetInt64(n)) }
+func Num(n int64) Poly { return PolyConst(new(big.Rat).SetInt64(n)) }
 func PolyConst(r *big.Rat) Poly {
 	p := Poly{T: map[string]*big.Rat{}}
 	if r.Sign() != 0 {
@@ -390,6 +390,8 @@ func (f *Folder) Fold(fn *ssa.Function, args []AV) (res []AV, err error) {
 				case token.SUB:
 					if p, ok := v.(Poly); ok {
 						env[x] = p.Neg()
+					} else if r, ok := v.(RatP); ok {
+						env[x] = r.Neg()
 					} else {
 						env[x] = TopV{"neg"}
 					}
@@ -509,8 +511,26 @@ func (f *Folder) binop(op token.Token, x, y AV) AV {
 		case token.MUL:
 			return px.Mul(py)
 		case token.QUO:
-			if r, ok := px.Div(py); ok {
-				return r
+			if c, isc := py.IsConst(); isc {
+				if c.Sign() == 0 {
+					return TopV{"division by constant zero"}
+				}
+				return px.Mul(PolyConst(new(big.Rat).Inv(c)))
+			}
+			return FromRat(RatP{px, py})
+		}
+	}
+	if rx, okx := ToRat(x); okx {
+		if ry, oky := ToRat(y); oky {
+			switch op {
+			case token.ADD:
+				return FromRat(rx.Add(ry))
+			case token.SUB:
+				return FromRat(rx.Add(ry.Neg()))
+			case token.MUL:
+				return FromRat(rx.Mul(ry))
+			case token.QUO:
+				return FromRat(rx.Div(ry))
 			}
 		}
 	}
@@ -619,6 +639,8 @@ func AVString(v AV) string {
 	switch x := v.(type) {
 	case Poly:
 		return x.String()
+	case RatP:
+		return x.String()
 	case BoolV:
 		return fmt.Sprint(bool(x))
 	case StrV:
@@ -686,4 +708,53 @@ func FieldAV(v AV, t types.Type, path ...string) AV {
 		}
 	}
 	return v
+}
+
+// RatP is a rational function N/D of polynomials (no normalisation: equality is decided by cross multiplication).
+type RatP struct{ N, D Poly }
+
+func PolyR(p Poly) RatP        { return RatP{p, Num(1)} }
+func SymR(n string) RatP       { return PolyR(SymP(n)) }
+func NumR(n int64) RatP        { return PolyR(Num(n)) }
+func (r RatP) Add(s RatP) RatP { return RatP{r.N.Mul(s.D).Add(s.N.Mul(r.D)), r.D.Mul(s.D)}.simp() }
+func (r RatP) Mul(s RatP) RatP { return RatP{r.N.Mul(s.N), r.D.Mul(s.D)}.simp() }
+func (r RatP) Neg() RatP       { return RatP{r.N.Neg(), r.D} }
+func (r RatP) Div(s RatP) RatP { return RatP{r.N.Mul(s.D), r.D.Mul(s.N)}.simp() }
+func (r RatP) Equal(s RatP) bool {
+	return r.N.Mul(s.D).Equal(s.N.Mul(r.D))
+}
+
+// simp divides out a constant denominator.
+func (r RatP) simp() RatP {
+	if c, ok := r.D.IsConst(); ok && c.Sign() != 0 {
+		return RatP{r.N.Mul(PolyConst(new(big.Rat).Inv(c))), Num(1)}
+	}
+	return r
+}
+
+func (r RatP) String() string {
+	if c, ok := r.D.IsConst(); ok && c.Cmp(big.NewRat(1, 1)) == 0 {
+		return r.N.String()
+	}
+	return "(" + r.N.String() + ")/(" + r.D.String() + ")"
+}
+
+// ToRat converts an abstract numeric value to a rational function.
+func ToRat(v AV) (RatP, bool) {
+	switch x := v.(type) {
+	case Poly:
+		return PolyR(x), true
+	case RatP:
+		return x, true
+	}
+	return RatP{}, false
+}
+
+// FromRat gives the simplest abstract value of a rational function (a Poly when the denominator is constant).
+func FromRat(r RatP) AV {
+	r = r.simp()
+	if c, ok := r.D.IsConst(); ok && c.Cmp(big.NewRat(1, 1)) == 0 {
+		return r.N
+	}
+	return r
 }
